@@ -116,6 +116,31 @@ fn module_from(name: &str) -> AgentStatusModule {
     }
 }
 
+/// production route: document -> set_imds_rules -> get_imds_rules -> is_allowed
+async fn rbac_state_one(case: &Value) -> Value {
+    let item = match item_from(&case["item"]) {
+        Ok(Some(i)) => i,
+        Ok(None) => return json!({"err": "null item"}),
+        Err(e) => return json!({"err": e}),
+    };
+    let url = match hyper::Uri::from_str(&s(case, "url")) {
+        Ok(u) => u,
+        Err(e) => return json!({"err": format!("uri: {e}")}),
+    };
+    let claims = claims_from(&case["claims"]);
+    let kk = shared().get_key_keeper_shared_state();
+    if let Err(e) = kk.set_imds_rules(Some(item)).await {
+        return json!({"err": e.to_string()});
+    }
+    let computed = match kk.get_imds_rules().await {
+        Ok(Some(c)) => c,
+        Ok(None) => return json!({"err": "rules vanished"}),
+        Err(e) => return json!({"err": e.to_string()}),
+    };
+    let mut logger = ConnectionLogger::new(0, 0);
+    json!({ "allowed": computed.is_allowed(&mut logger, url, claims) })
+}
+
 fn rbac_one(case: &Value) -> Value {
     let item = match item_from(&case["item"]) {
         Ok(Some(i)) => i,
@@ -515,6 +540,10 @@ async fn dispatch(op: String, a: Value) -> Value {
             let cases = a["cases"].as_array().cloned().unwrap_or_default();
             let mut out = Vec::with_capacity(cases.len());
             for c in cases {
+                if s(&c, "route") == "state" {
+                    out.push(rbac_state_one(&c).await);
+                    continue;
+                }
                 match std::panic::catch_unwind(std::panic::AssertUnwindSafe(|| rbac_one(&c))) {
                     Ok(v) => out.push(v),
                     Err(_) => out.push(json!({"panic": true})),
